@@ -9,6 +9,9 @@ SRC = "/tmp/seeded_out"
 res = {}
 for f in sys.argv[1:]:
     for r in json.load(open(f)):
+        prev = res.get(r["name"], {})
+        if "tests_rc" not in r and "tests_rc" in prev:
+            r = dict(r, tests_rc=prev["tests_rc"], tests_tail=prev.get("tests_tail", ""))   # test-suite result of an earlier run of the same patch
         res[r["name"]] = r   # later files win
 
 head = subprocess.run("git -C /repo rev-parse --short HEAD", shell=True, capture_output=True, text=True).stdout.strip()
